@@ -528,6 +528,61 @@ Proof.
   - intros n. apply (Thunder.Props.C08.cleanup_at_most_once _ _ _ n Gr).
 Qed.
 
+(** THE FULL STATEMENT.  [progs_ok]: the compute scripts of the world only read data slots that exist.  When, after
+    the end of a subscription, the system has come to rest, the subscription's rerunner holds nothing (C08
+    [stopped_rerunner_holds_nothing_at_quiescence], through the ownership invariant of Reactive/ProofsOwnership.v):
+    it has no computation; no goroutine is left; every node of the reactive graph that is still unreleased - a
+    computation, or anything that was depended upon - is, through a chain of dependants, a dependency of the
+    current computation of ANOTHER rerunner, one whose subscription / mutation has not ended; every resource that
+    was depended upon has been released with exactly one Cleanup call, or is such a dependency; no callback
+    anywhere ran twice.  So everything only the ended subscription's computations - current, superseded, cached -
+    depended on is released, its Cleanup callbacks (the timers of InvalidateAfter included) having run exactly once. *)
+From Thunder Require Reactive.ProofsReach Reactive.ProofsClosed Reactive.ProofsOwnership.
+Module RC := Thunder.Reactive.ProofsClosed.
+Module RH := Thunder.Reactive.ProofsReach.
+Module RO := Thunder.Reactive.ProofsOwnership.
+
+Lemma holder_is_alive w p r top : Good w p -> r < List.length (RR.s_rrs (snd p)) ->
+  RR.r_stop (RR.getr (snd p) r) = false -> RR.r_comp (RR.getr (snd p) r) = Some top -> alive_in (fst p) r = true.
+Proof.
+  intros G Lr St Hc. rewrite (pool_length _ _ G) in Lr. destruct G as [(_ & _ & Hcoh) _ _].
+  specialize (Hcoh r Lr). unfold alive_in. destruct (st_runners (fst p) r) as [ru|]; cbn [coh] in Hcoh.
+  - destruct Hcoh as (H1 & _). destruct (is_stopped ru) eqn:E; [|reflexivity].
+    apply is_stopped_stat in E. apply H1 in E. congruence.
+  - destruct Hcoh as (_ & _ & _ & H4). congruence.
+Qed.
+
+Theorem released_after_end_full_l : forall w p rid,
+  RC.progs_ok (w_slots w) (w_progs w) ->
+  preachable w p -> stopped_in (fst p) rid = true -> RR.quiescent (snd p) ->
+  RR.r_comp (RR.getr (snd p) rid) = None
+  /\ RB.all_frames (snd p) = []
+  /\ (forall x, x < List.length (RR.s_nodes (snd p)) -> RG.n_rel (RR.getN (snd p) x) = false ->
+        RG.n_had (RR.getN (snd p) x) = true \/ (RG.n_hrel (RR.getN (snd p) x) = None /\ RG.n_timer (RR.getN (snd p) x) = 0) ->
+        exists r top, r <> rid /\ alive_in (fst p) r = true /\ RR.r_comp (RR.getr (snd p) r) = Some top /\
+                      RH.reach (RR.s_nodes (snd p)) x top)
+  /\ (forall n, RG.n_had (RR.getN (snd p) n) = true -> RG.n_hrel (RR.getN (snd p) n) <> None ->
+        (RG.n_rel (RR.getN (snd p) n) = true /\ RG.n_cln (RR.getN (snd p) n) = 1) \/
+        exists r top, r <> rid /\ alive_in (fst p) r = true /\ RR.r_comp (RR.getr (snd p) r) = Some top /\
+                      RH.reach (RR.s_nodes (snd p)) n top)
+  /\ (forall n, RG.n_cln (RR.getN (snd p) n) <= 1).
+Proof.
+  intros w p rid Pk R S Q.
+  destruct (never_computes_after_end_l w p [] p rid R S eq_refl) as (St & C & _ & _).
+  pose proof (preachable_Good _ _ R) as G. pose proof G as [_ _ Gr].
+  destruct (RO.stopped_holds_nothing_lemma _ _ _ rid Pk Gr Q St) as (_ & Hx & Hn).
+  assert (Live : forall y, (exists r top, r <> rid /\ RR.r_stop (RR.getr (snd p) r) = false /\ RR.r_comp (RR.getr (snd p) r) = Some top /\ RH.reach (RR.s_nodes (snd p)) y top) ->
+                 exists r top, r <> rid /\ alive_in (fst p) r = true /\ RR.r_comp (RR.getr (snd p) r) = Some top /\ RH.reach (RR.s_nodes (snd p)) y top).
+  { intros y (r & top & A1 & A2 & A3 & A4). exists r, top. repeat split; auto.
+    eapply holder_is_alive; [exact G | | exact A2 | exact A3].
+    destruct (Nat.lt_ge_cases r (List.length (RR.s_rrs (snd p)))) as [L|L]; [exact L|].
+    unfold RR.getr in A3. rewrite nth_overflow in A3 by exact L. discriminate. }
+  split; [exact C|]. split; [unfold RB.all_frames; rewrite Q; reflexivity|]. split; [|split].
+  - intros x Lx Rl Kd. apply Live. apply Hx; assumption.
+  - intros n Hd Hh. destruct (Hn n Hd Hh) as [A|A]; [left; exact A | right; apply Live; exact A].
+  - intros n. apply (Thunder.Props.C08.cleanup_at_most_once _ _ _ n Gr).
+Qed.
+
 (** After the connection closed every rerunner it ever created is stopped in the reactive package. *)
 Theorem all_rerunners_stopped_after_close_l : forall w p rid ru,
   c_fix_mutdup (w_cfg w) = true -> preachable w p -> st_closed (fst p) = true ->
